@@ -1099,16 +1099,16 @@ pub fn run(mut rep: Report) -> i32 {
     let thorough = rep.thorough();
     let b = Bounds {
         max_len: 3,
-        pairs_all_upto: if thorough { 700 } else { 200 },
+        pairs_all_upto: if thorough { 700 } else { 140 },
         near: if thorough { 16 } else { 5 },
         stride: if thorough { 16 } else { 0 },
         subsets_upto: if thorough { 20 } else { 16 },
-        masks_all_upto: if thorough { 160 } else { 64 },
-        deadline: Instant::now() + Duration::from_secs(if thorough { 540 } else { 30 }),
+        masks_all_upto: if thorough { 160 } else { 48 },
+        deadline: Instant::now() + Duration::from_secs(if thorough { 540 } else { 35 }),
     };
     rep.rule = format!(
         "families: TopicLogSyncMessage<u64,()> (6), LogSyncMessage<u64> (6), (Header<()>, Option<Body>) (3), String (6), a harness enum (6), () (1); every sequence of length <= 3 per family; cut sets: none, every single position, every prefix followed by silence or end of stream, every pair of positions ({}), every subset of positions for streams <= {} bytes; each cut set decoded by Decoder::decode on a growing buffer and by FramedRead over a one-chunk-per-poll reader with every Pending pattern (<= 3 chunks, streams <= {} bytes; otherwise none/all); max_frame_len L in {{s-1, s, s+1 | s a message size}} + {{0}} on encode and on decode of every frame prefix, and for whole sequences through FramedWrite/FramedRead; corrupted prefixes (longer than data, zero, shorter, 0xffffffff); non-trivial = a cut set with at least one cut strictly inside a frame, or a limit within 1 of the frame size",
-        if thorough { "all pairs for streams <= 700 bytes, otherwise pairs among positions within 16 bytes of a frame boundary, frame midpoints and every 16th position".to_string() } else { "all pairs for streams <= 200 bytes, otherwise pairs among positions within 5 bytes of a frame boundary and frame midpoints".to_string() },
+        if thorough { "all pairs for streams <= 700 bytes, otherwise pairs among positions within 16 bytes of a frame boundary, frame midpoints and every 16th position".to_string() } else { "all pairs for streams <= 140 bytes, otherwise pairs among positions within 5 bytes of a frame boundary and frame midpoints".to_string() },
         b.subsets_upto,
         b.masks_all_upto
     );
